@@ -193,8 +193,35 @@ def install(src):
     json.dump(meta, open(os.path.join(dst, "meta.json"), "w"), indent=1)
     print("installed", mid, "confirmed", ver["confirmed"], {p: v["caught"] for p, v in ver["checks"].items()})
 
+def regress(slot, ids):
+    """Re-run the property's quick check of installed mutants against the current machinery;
+    records verification.final_check in seeded/<id>/meta.json."""
+    for mid in ids:
+        d = os.path.join("/verif/seeded", mid)
+        mp = os.path.join(d, "meta.json")
+        meta = json.load(open(mp))
+        prop = meta["property"]
+        wt = prepare(slot)
+        rc, out = sh(f"git apply {os.path.join(d,'patch.diff')}", cwd=wt)
+        if rc != 0:
+            print(mid, "patch does not apply"); continue
+        t0 = time.time()
+        rc, out = sh(f"./check {prop} --tier quick", cwd="/verif", env={"VERIF_REPO": wt}, timeout=5400)
+        lines = [l for l in out.splitlines() if re.match(r"^(VIOLATION|INCONCLUSIVE)", l)]
+        meta = json.load(open(mp))
+        meta.setdefault("verification", {})["final_check"] = {
+            "property": prop, "rc": rc, "caught": rc == 1 and any(l.startswith("VIOLATION") for l in lines),
+            "first_lines": lines[:2], "wall_s": round(time.time() - t0, 1),
+            "verif_head": sh("git -C /verif rev-parse --short HEAD")[1].strip(), "repo_head": sh(f"git -C {REPO} rev-parse --short HEAD")[1].strip()}
+        json.dump(meta, open(mp, "w"), indent=1)
+        print(mid, prop, "rc", rc, "caught", meta["verification"]["final_check"]["caught"], flush=True)
+        sh("git checkout -- . && git clean -fdq -e target", cwd=wt)
+
 if __name__ == "__main__":
     a = sys.argv[1:]
+    if a[0] == "regress":
+        regress(int(a[1]), a[2:])
+        sys.exit(0)
     if a[0] == "install":
         for d in a[1:]:
             install(d)
